@@ -102,12 +102,18 @@ fn check_answers<T: LabelType>(
             }
         }
     }
-    // large extensions (buffers, separators at scale): the first k arguments of a 3000-argument framework
+    // large extensions (buffers, separators at scale): the first k arguments of a 4100-argument framework
     {
-        let big_labels: Vec<T> = make_big(3000);
+        let big_labels: Vec<T> = make_big(4100);
         let af = AAFramework::new_with_argument_set(ArgumentSet::new_with_labels(&big_labels));
         let args: Vec<&Argument<T>> = af.argument_set().iter().collect();
-        for k in [10usize, 100, 1000, 1365, 1366, 1400, 2048, 3000] {
+        // sizes straddling every power of two (chunked writes), plus the sizes at which the output crosses 8 KiB
+        let mut ks: Vec<usize> = vec![10, 100, 1000, 1365, 1366, 1400, 3000];
+        for p in 4..=12u32 {
+            ks.extend([(1usize << p) - 1, 1 << p, (1 << p) + 1]);
+        }
+        ks.sort();
+        for k in ks {
             let ext: Vec<&Argument<T>> = args[..k].to_vec();
             let names: Vec<String> = ext.iter().map(|a| a.label().to_string()).collect();
             let mut buf = vec![];
